@@ -55,16 +55,22 @@ func c08(p Params) func() {
 			}
 		}
 		var ths []*vsched.Thread
-		var inRes, outRes string
-		var inCmd, outCmd erpc.CallCmd
+		var inRes, outRes, out2Res string
+		var inCmd, outCmd, out2Cmd erpc.CallCmd
 		if dir == "in" || dir == "both" {
 			ths = append(ths, world.Go("callerB", func() {
 				inCmd = sb.Call(hA, "x", &inRes)
 			}))
 		}
-		if dir == "out" || dir == "both" {
+		if dir == "out" || dir == "both" || dir == "out2" {
 			ths = append(ths, world.Go("callerA", func() {
 				outCmd = sa.Call(hB, "y", &outRes)
+			}))
+		}
+		if dir == "out2" {
+			// a second call of this side is pending at the same time
+			ths = append(ths, world.Go("callerA2", func() {
+				out2Cmd = sa.Call(hB, "z", &out2Res)
 			}))
 		}
 		ths = append(ths, world.Go("closer", func() {
@@ -100,26 +106,31 @@ func c08(p Params) func() {
 			}
 			vsched.Logf("in=%s", statClass(st))
 		}
-		if outCmd != nil {
-			st := outCmd.Status()
-			// did A's request reach the wire completely?
+		checkOut := func(cmd erpc.CallCmd, res, arg string) {
+			if cmd == nil {
+				return
+			}
+			st := cmd.Status()
+			// did this request reach the wire completely?
 			sent := false
 			frames, _, _ := world.ParseFrames(link.A.Written)
 			for _, f := range frames {
-				if f.Mtype == erpc.TypeCall {
+				if f.Mtype == erpc.TypeCall && f.Seq == cmd.Output().Seq() {
 					sent = true
 				}
 			}
 			if sent {
 				world.Counter("request_on_wire")
-				if !st.OK() || outRes != "B:y" {
-					vsched.Failf("call issued before closing was written to the wire and the peer replied, but the caller got %s result %q | %s", world.StatStr(st), outRes, strings.Join(obs, ","))
+				if !st.OK() || res != "B:"+arg {
+					vsched.Failf("call issued before closing was written to the wire and the peer replied, but the caller got a connection error or a wrong result | %s result %q, %s", world.StatStr(st), res, strings.Join(obs, ","))
 				}
 			} else if st.OK() {
 				vsched.Failf("call reported OK although its request never reached the wire")
 			}
 			vsched.Logf("out=%s", statClass(st))
 		}
+		checkOut(outCmd, outRes, "y")
+		checkOut(out2Cmd, out2Res, "z")
 		if sa.Health() {
 			vsched.Failf("session still healthy after Close() returned")
 		}
